@@ -1142,3 +1142,71 @@ theorem crash_in_progress (env : Env) (cfg : Config) (w : World) (op : Op) (bm :
   · intro e; exact hk m hm (by rw [hmn, e])
 
 end Updater
+
+namespace Updater
+
+/-! ### one I/O error during the release-change reset (the property's second sentence, for this transition)
+
+  `create_new_and_save` = reset the patch state (write the emptied `patches_state.json`, remove
+  `patches/`), then record the new release version in `state.json`. A fault model of exactly these
+  three file-system steps: each may fail (nothing written / removed) while execution continues. -/
+
+/-- The storage directory after `create_new_and_save d v` when the marked steps fail. -/
+def createNewAndSaveF (d : Disk) (v : String) (failPj failRm failSj : Bool) : Disk :=
+  let d1 : Disk := if failPj then d else { d with patchesJson := .ok {} }
+  let d2 : Disk := if failRm then d1 else { d1 with patches := none }
+  if failSj then d2 else { d2 with stateJson := .ok { version := v, events := [] } }
+
+/-- Without faults this is the atomic semantics. -/
+theorem createNewAndSaveF_none (d : Disk) (v : String) :
+    createNewAndSaveF d v false false false = (createNewAndSave d v).pm.disk := by
+  rw [createNewAndSave_eq]; rfl
+
+/-- Nothing can be selected from a directory without `patches/`. -/
+theorem recover_nopatches (env : Env) (c : Config) (x : Disk) (hp : x.patches = none) : (recover env c x).2 = none := by
+  cases h : (recover env c x).2 with
+  | none => rfl
+  | some n =>
+    exfalso
+    obtain ⟨hst, ⟨m, _, _, hv⟩, _⟩ := recover_facts env c x n h
+    -- the selected artifact validates after recovery, but recovery never creates artifacts
+    obtain ⟨b, hb, _⟩ := validate_spec env c.key _ m hv
+    have h1 := artSub_secHandlePrior env c x hst m.number
+    have h2 := artSub_secNextBootPatch env c _ (secHandlePrior_settled env c x hst) m.number
+    have hx : x.art m.number = none := by simp [Disk.art, hp]
+    unfold recover at hb
+    rcases h2 with h2 | h2
+    · rw [h2] at hb; cases hb
+    · rw [h2] at hb
+      rcases h1 with h1 | h1
+      · rw [h1] at hb; cases hb
+      · rw [h1, hx] at hb; cases hb
+
+/-- **C04, second sentence, for the release change.** Let the first call of a new release (or one
+    that finds `state.json` unreadable) hit at most one I/O error among the three steps of the reset,
+    and go on. Then what any later load of the stored state selects — in the same process (every call
+    reloads the state) or at the next launch — is nothing: either the state files still do not read as a
+    state of this release (and the reset is simply run again), or the patch records are emptied, or
+    `patches/` is gone and no stale record can validate. -/
+theorem reset_fault_safe (env : Env) (c : Config) (d : Disk) (hu : ¬ Settled d c.version)
+    (failPj failRm failSj : Bool)
+    (hone : (failPj && failRm) = false ∧ (failPj && failSj) = false ∧ (failRm && failSj) = false) :
+    (recover env c (createNewAndSaveF d c.version failPj failRm failSj)).2 = none := by
+  cases failPj <;> cases failRm <;> cases failSj <;> simp at hone
+  · -- no fault
+    apply recover_nopatches; rfl
+  · -- state.json could not be written: still not a state of this release
+    have hx : ¬ Settled (createNewAndSaveF d c.version false false true) c.version := by
+      intro ⟨s, hs, hv⟩; exact hu ⟨s, hs, hv⟩
+    unfold recover
+    rw [secHandlePrior_unsettled_clean env c _ hx, secNextBootPatch_cleanDisk]
+  · -- patches/ could not be removed, but the records are emptied
+    cases h : (recover env c (createNewAndSaveF d c.version false true false)).2 with
+    | none => rfl
+    | some n =>
+      obtain ⟨_, ⟨m, hm, _, _⟩, _⟩ := recover_facts env c _ n h
+      simp [createNewAndSaveF, loadPatchesState, JFile.getD, InSlot] at hm
+  · -- the emptied patches_state.json could not be written, but patches/ is gone (fix D6b)
+    apply recover_nopatches; rfl
+
+end Updater
